@@ -46,6 +46,8 @@ let parse_script (s : string) =
     | ["pushbad"; d] -> let b = find (int_of_string d) in APush (n_of_int b.bid, content_bad b.bid b.bchunks)
     | ["tag"; d; r] -> ATag (num d, num r)
     | ["untag"; r] -> AUntag (num r)
+    | ["tagdigest"; d] -> ATagDigest (num d)
+    | ["untagdigest"; d] -> AUntagDigest (num d)
     | ["delete"; d] -> ADelete (num d, [])
     | ["saveindex"] -> ASaveIndex
     | "dgc" :: d :: ts -> ADelete (num d, List.map num ts)
@@ -136,7 +138,7 @@ let show_fs blobs ctr (fs : fS) =
 
 let show_res r =
   match r with
-  | ROk -> "ok" | RExists -> "exists" | RNotFound -> "notfound" | RMismatch -> "mismatch" | RInvalid -> "invalid"
+  | ROk -> "ok" | RExists -> "exists" | RNotFound -> "notfound" | RMismatch -> "mismatch" | RInvalid -> "invalid" | RInvalidRef -> "invalidref"
 
 let rec nat_len l = match l with [] -> 0 | _ :: r -> 1 + nat_len r
 
